@@ -18,8 +18,8 @@ followed by netw_send, and the ack counter written is the duplicate's own counte
 TxOutcome::Retransmit answer is cut by a branch on the select3 result that excludes Either3::Second (some session was removed), and the timer
 deadline is now + retrans_delay_ms() - the numeric back-off itself is not decided.
 """
-CLAUSES = ['a: transmit give-up is propagated as TxTimeout', 'b: only a matching acknowledgement clears the retransmission entry', 'c: duplicates are acknowledged again',
-           'd: only the ack or the back-off timer ends the wait before a retransmission']
+CLAUSES = ['a: transmit give-up is propagated as TxTimeout', 'b: only a matching acknowledgement clears the retransmission entry', 'c: duplicates are acknowledged again (classified Duplicate before any other refusal)',
+           'd: only the ack or the back-off timer ends the wait before a retransmission; back-off arithmetic keeps every bit']
 NOT_DECIDED = ['at-most-once and in-order delivery', 'success only if the peer received the message', 'back-off lower bounds / timing', 'success under one good transmission']
 MIN_OBLIGATIONS = {'q': 14, 'd': 14, 'r': 14}
 
